@@ -160,7 +160,8 @@ def run(chk):
                        "arrays, structs, enums, optionals incl. nested ones, error unions, distincts), reflected in "
                        "forward and in reverse order (type ids are handed out in order of first use): run-time "
                        "description through core.meta, member / element address differences on real memory, size / "
-                       "align / stride inside comptime, the full type-equality matrix, `any` of 7 scalar types")
+                       "align / stride inside comptime, the full type-equality matrix, `any` made from a value of every type "
+                       "(it carries that type and not, for a distinct, the underlying one)")
 
 
 def run_order(chk, ds, order):
@@ -201,6 +202,15 @@ def run_order(chk, ds, order):
             L.append("    { v : %s = %s; a : any = v; core.println(\"Y \", core.type_of(a) == %s, \" \", core.type_of(a) == %s); }"
                      % (T, v, T, "u16" if T != "u16" else "i8"))
             want.append(("any", T, "Y true false"))
+    # (6) ... for every type of the universe (a value read from zeroed memory): the `any` carries
+    # exactly that type - in particular not the underlying type of a distinct
+    for j, (d, T) in enumerate(zip(ds, tys)):
+        if d["size"] == 0:
+            continue
+        other = N.texpr(d["t"]["sub"]) if d["t"]["k"] == "distinct" else tys[(j + 1) % n]
+        L.append("    { q := ^%s.(rawptr.(^buf)); a : any = q^; core.println(\"Z \", core.type_of(a) == %s, \" \", core.type_of(a) == %s); }"
+                 % (T, T, other))
+        want.append(("any-of", T, "Z true false"))
     L.append("}")
     src = PRE + "\n".join(N.decls) + "\n" + "\n".join(L) + "\n"
     job = {"id": "refl", "files": {"main.capy": src}, "run": True, "timeout_ms": 120000, "mod_dir": "repo"}
